@@ -739,6 +739,17 @@ impl Gen {
                 funds.push(coin(7, "wbtc")); // foreign asset
             }
         }
+        // the same denom in two entries (the host accepts it; amounts must be aggregated per denom)
+        if !single && funds.len() >= 2 && self.rng.chance(1, 25) {
+            let k = self.rng.below(funds.len() as u64) as usize;
+            let a = funds[k].amount.u128();
+            if a >= 2 {
+                let first = a / 2;
+                let d = funds[k].denom.clone();
+                funds[k] = coin(first, d.clone());
+                funds.insert(0, coin(a - first, d));
+            }
+        }
         let mut target_owner: Option<String> = None;
         let (unlocking_duration, lock_position_identifier) = if locked {
             let ud = self.unlock_duration(c);
